@@ -443,6 +443,101 @@ theorem collapse_del_sublist (n : Nat) (s : List α) :
     List.Sublist (collapse p n [] s) s := by
   simpa [collapse] using go_sublist (p := p) (n := n) s []
 
+/-! ## T5 — inputs without a removable run are left untouched
+
+Together with T2 this says the fixed points of each cleaner are exactly the
+"clean" strings; in particular a lone `p`-element (a single `_`) is kept, which
+T1-T3 alone do not say. -/
+
+theorem NoAdj.of_append_right {l t : List α} (h : NoAdj p (l ++ t)) : NoAdj p t := by
+  induction l with
+  | nil => exact h
+  | cons a l ih => exact ih (NoAdj.tail h)
+
+theorem go_del_fixed (s : List α) :
+    ∀ acc : List α, acc.length ≤ 1 → (∀ x ∈ acc, p x = true) → NoAdj p (acc ++ s) →
+      go p 2 [] acc s = acc ++ s := by
+  induction s with
+  | nil =>
+    intro acc hlen _ _
+    have : ¬ 2 ≤ acc.length := by omega
+    simp [go, flush, this]
+  | cons x xs ih =>
+    intro acc hlen hacc h
+    cases hx : p x with
+    | true =>
+      simp only [go, hx, if_true]
+      match acc, hlen, hacc, h with
+      | [], _, _, h =>
+        have := ih [x] (by simp) (by simpa using hx) (by simpa using h)
+        simpa using this
+      | [a], _, hacc, h =>
+        exact absurd ⟨hacc a (by simp), hx⟩ h.1
+      | _ :: _ :: _, hl, _, _ => simp at hl
+    | false =>
+      simp only [go, hx, Bool.false_eq_true, if_false]
+      have hfl : flush 2 ([] : List α) acc = acc := by
+        have : ¬ 2 ≤ acc.length := by omega
+        simp [flush, this]
+      have hxs : NoAdj p xs := NoAdj.tail (NoAdj.of_append_right h)
+      rw [hfl, ih [] (by simp) (by simp) (by simpa using hxs)]
+      rfl
+
+/-- (T5, delete-runs) a list with no two adjacent `p`-elements is unchanged. -/
+theorem collapse_del_fixed (s : List α) (h : NoAdj p s) : collapse p 2 [] s = s := by
+  simpa [collapse] using go_del_fixed s [] (by simp) (by simp) (by simpa using h)
+
+/-- (T5, delete-runs) fixed points are exactly the lists with no `p`-run of length `>= 2`. -/
+theorem collapse_del_fixed_iff (s : List α) : collapse p 2 [] s = s ↔ NoAdj p s :=
+  ⟨fun e => e ▸ collapse_del_noAdj s, collapse_del_fixed s⟩
+
+theorem flush_ws_small (c : α) {acc : List α} (hlen : acc.length ≤ 1) (hacc : ∀ x ∈ acc, x = c) :
+    flush 1 [c] acc = acc := by
+  match acc, hlen, hacc with
+  | [], _, _ => simp [flush]
+  | [a], _, hacc => simp [flush, hacc a (by simp)]
+  | _ :: _ :: _, hl, _ => simp at hl
+
+theorem go_ws_fixed (c : α) (hc : p c = true) (s : List α) :
+    ∀ acc : List α, acc.length ≤ 1 → (∀ x ∈ acc, x = c) → NoAdj p (acc ++ s) →
+      (∀ y ∈ s, p y = true → y = c) → go p 1 [c] acc s = acc ++ s := by
+  induction s with
+  | nil =>
+    intro acc hlen hacc _ _
+    simp [go, flush_ws_small c hlen hacc]
+  | cons x xs ih =>
+    intro acc hlen hacc h hs
+    have hs' : ∀ y ∈ xs, p y = true → y = c := fun y hy => hs y (List.mem_cons_of_mem _ hy)
+    cases hx : p x with
+    | true =>
+      simp only [go, hx, if_true]
+      have hxc : x = c := hs x (List.mem_cons_self ..) hx
+      match acc, hlen, hacc, h with
+      | [], _, _, h =>
+        have := ih [x] (by simp) (by simpa using hxc) (by simpa using h) hs'
+        simpa using this
+      | [a], _, hacc, h =>
+        have hpa : p a = true := by rw [hacc a (by simp)]; exact hc
+        exact absurd ⟨hpa, hx⟩ h.1
+      | _ :: _ :: _, hl, _, _ => simp at hl
+    | false =>
+      simp only [go, hx, Bool.false_eq_true, if_false]
+      have hxs : NoAdj p xs := NoAdj.tail (NoAdj.of_append_right h)
+      rw [flush_ws_small c hlen hacc, ih [] (by simp) (by simp) (by simpa using hxs) hs']
+      rfl
+
+/-- (T5, ws-collapse) a list with no two adjacent `p`-elements whose `p`-elements
+all equal `c` is unchanged. -/
+theorem collapse_ws_fixed (c : α) (hc : p c = true) (s : List α) (h : NoAdj p s)
+    (hs : ∀ y ∈ s, p y = true → y = c) : collapse p 1 [c] s = s := by
+  simpa [collapse] using go_ws_fixed c hc s [] (by simp) (by simp) (by simpa using h) hs
+
+/-- (T5, ws-collapse) characterisation of the fixed points. -/
+theorem collapse_ws_fixed_iff (c : α) (hc : p c = true) (s : List α) :
+    collapse p 1 [c] s = s ↔ (NoAdj p s ∧ ∀ y ∈ s, p y = true → y = c) :=
+  ⟨fun e => ⟨e ▸ collapse_ws_noAdj c s, e ▸ collapse_ws_p_eq c s⟩,
+   fun h => collapse_ws_fixed c hc s h.1 h.2⟩
+
 /-! ## T4 — fold-append (composition clause of `clean_text`) -/
 
 theorem fold_nil {β : Type u} (t : β) : fold ([] : List (β → β)) t = t := rfl
@@ -518,6 +613,8 @@ end Collapse
                       Collapse.collapse_ws_filter, Collapse.collapse_del_filter
                       Collapse.collapse_del_sublist
   T4 fold-append      Collapse.fold_append (also fold_nil, fold_snoc)
+  T5 fixed points     Collapse.collapse_del_fixed, Collapse.collapse_del_fixed_iff
+                      Collapse.collapse_ws_fixed, Collapse.collapse_ws_fixed_iff
   instances           Collapse.inlineWhitespace_idem, Collapse.allWhitespace_idem,
                       Collapse.underscores_idem
 -/
@@ -540,6 +637,10 @@ end Collapse
 #print axioms Collapse.collapse_ws_filter
 #print axioms Collapse.collapse_del_filter
 #print axioms Collapse.collapse_del_sublist
+#print axioms Collapse.collapse_del_fixed
+#print axioms Collapse.collapse_del_fixed_iff
+#print axioms Collapse.collapse_ws_fixed
+#print axioms Collapse.collapse_ws_fixed_iff
 #print axioms Collapse.fold_nil
 #print axioms Collapse.fold_snoc
 #print axioms Collapse.fold_append
